@@ -105,6 +105,9 @@ func (cw *ccWorld) obs(ch string) string {
 		if !ok || !balanceKinds[ot] {
 			continue
 		}
+		if (ot == "31" || ot == "32") && len(v) > 0 && v[0] == '{' {
+			continue // an external lock record, not a balance
+		}
 		kind, _ := strconv.ParseInt(ot, 16, 32)
 		e := be{k: int(kind), v: new(big.Int).SetBytes(v)}
 		switch kind {
